@@ -687,13 +687,8 @@ class VMF:
         self.entities.append(item)
         self.by_class[item['classname', ''].casefold()].add(item)
         self.by_target[item['targetname', ''].casefold() or None].add(item)
-        if 'nodeid' in item:
-            try:
-                node_id = int(item['nodeid'])
-            except (TypeError, ValueError):
-                pass
-            else:
-                item['nodeid'] = str(self.node_id.get_id(node_id))
+        # A node ID is reserved by the entity for as long as it has the keyvalue, whether it is in the map or not
+        # (see Entity.__setitem__), so there is nothing to acquire here.
 
     def remove_ent(self, item: 'Entity') -> None:
         """Remove an entity from the map.
@@ -708,15 +703,8 @@ class VMF:
 
         _remove_copyset(self.by_class, item['classname'].casefold(), item)
         _remove_copyset(self.by_target, item['targetname'].casefold() or None, item)
-        if 'nodeid' in item:
-            try:
-                node_id = int(item['nodeid'])
-            except (TypeError, ValueError):
-                pass
-            else:
-                self.node_id.discard(node_id)
-        # The entity ID is not released here. The object can be re-added later, so the ID stays
-        # reserved until the entity itself is destroyed (see Entity.__del__).
+        # Neither the entity ID nor its node ID are released here. The object can be re-added later, so they
+        # stay reserved until the entity itself is destroyed (see Entity.__del__).
 
     def add_brushes(self, brushes: Iterable['Solid']) -> None:
         """Add multiple brushes to the map."""
@@ -729,13 +717,6 @@ class VMF:
         for item in ents:
             self.by_class[item['classname'].casefold()].add(item)
             self.by_target[item['targetname', ''].casefold() or None].add(item)
-            if 'nodeid' in item:
-                try:
-                    node_id = int(item['nodeid'])
-                except (TypeError, ValueError):
-                    pass
-                else:
-                    item['nodeid'] = str(self.node_id.get_id(node_id))
 
     def create_ent(self, classname: str, **kargs: ValidKVs) -> 'Entity':
         """Convenience method to allow creating point entities.
@@ -3123,8 +3104,14 @@ class Entity(MutableMapping[str, str]):
     get_key = __contains__
 
     def __del__(self) -> None:
-        """Forget this entity's ID when the object is destroyed."""
+        """Forget this entity's ID and node ID when the object is destroyed."""
         self.map.ent_id.discard(self.id)
+        try:
+            node_id = int(self['nodeid'])
+        except (TypeError, ValueError):
+            pass
+        else:
+            self.map.node_id.discard(node_id)
 
     def get_bbox(self) -> tuple[Vec, Vec]:
         """Get two vectors representing the space this entity takes up."""
